@@ -747,6 +747,7 @@ impl Scenario for Mask {
                                         if !a.is_empty() {
                                             cx.reach("probe_nonempty");
                                         }
+                                        cx.rep.count(&format!("reach.probe_rows.{}", op.name.as_deref().unwrap_or("other")));
                                         let same = if self.mode == Mode::Columnar {
                                             // numeric results compared by value, not by storage type
                                             // (AVG is Double on one path and Numeric on the other)
@@ -761,7 +762,11 @@ impl Scenario for Mask {
                                             return cx.violation(&oracle("order_agree"), format!("{} : order differs between [{}] {:?} and [{}] {:?}", sql, l0, seq(a), label, seq(b)));
                                         }
                                     }
-                                    (Out::Err(_), Out::Err(_)) => {}
+                                    (Out::Err(_), Out::Err(_)) => {
+                                        // both fail alike: agreement, but it says little - counted so that a probe
+                                        // family that only ever fails shows up in the evidence
+                                        cx.reach(&format!("probe_both_error.{}", op.name.as_deref().unwrap_or("other")));
+                                    }
                                     (x, y) => {
                                         // a probe over an object the (minimised) history no longer creates says
                                         // nothing about the property
